@@ -509,7 +509,7 @@ Proof.
       specialize (E1 Hb). change (blocks (set_pool _ _ _) b) with B in E1.
       unfold raw_out at 1 2 in E1; proj. rewrite Et in E1. simpl in E1. rewrite andb_false_r in E1.
       pose proof (out_set_pool st p (mkPool (pparams P) c (prefs P) (pheld P - Nat.min shrink (pheld P)) (palive P)) Hlt) as E2.
-      unfold pool_out in E2; proj. fold P in E2. rewrite Hal in E2 |- *. lia.
+      unfold pool_out in E2; proj. fold P in E2. rewrite Hal in E1, E2 |- *. lia.
   - (* a raw block *)
     destruct Htag as [Hs Hn1]. rewrite Hbn in Hn1.
     destruct (Z.eqb_spec n 1) as [|_]; [contradiction|]. simpl.
@@ -555,10 +555,501 @@ Lemma run_good st ops : inv st -> good true st ops = true ->
     outstanding st' + sum_frees obs = outstanding st + sum_allocs obs.
 Proof.
   revert st. induction ops as [|o r IH]; intros st I G.
-  - exists st, []. simpl. repeat split; auto.
+  - exists st, []. simpl. split; [reflexivity|]. split; [exact I|]. split; [constructor | lia].
   - simpl in G. repeat rewrite andb_true_iff in G. destruct G as [[Hp HH] Hr]. simpl in HH.
     destruct (step_good_all st o I Hp HH) as [st1 [ob [Es [I1 [R1 B1]]]]].
     rewrite Es in Hr. destruct (IH st1 I1 Hr) as [st2 [obs [Er [I2 [R2 B2]]]]].
-    exists st2, (ob :: obs). simpl. rewrite Es, Er. repeat split; auto.
-    unfold balanced in B1. simpl. lia.
+    exists st2, (ob :: obs). simpl. rewrite Es, Er. split; [reflexivity|]. split; [exact I2|].
+    split; [constructor; assumption|]. unfold balanced in B1. lia.
 Qed.
+
+(* ================================================================== the theorems *)
+
+(* T1: under the client protocol and H, no history gets stuck and every deallocate returns its block to
+   where it came from (pool block -> the pool with the same parameters, raw block -> base allocator with
+   its size) *)
+Theorem dealloc_matches_origin : forall ops, good true init ops = true ->
+  exists st' obs, run init ops = Ok (st', obs) /\ Forall (fun o => routed_ok o = true) obs /\ inv st'.
+Proof.
+  intros ops G. destruct (run_good init ops inv_init G) as [st' [obs [E [I [R _]]]]].
+  exists st', obs. auto.
+Qed.
+
+(* T1': at every reachable state GetAllocateCount() of a pool is the number of live pooled blocks obtained
+   through it, all of which carry the pool's current parameters *)
+Theorem count_is_live_pooled_blocks : forall ops st' obs, good true init ops = true -> run init ops = Ok (st', obs) ->
+  forall p, p < npools st' ->
+    pcount (pools st' p) = sumn (nblocks st') (fun b => pooled_in p (blocks st' b)) /\
+    forall b, b < nblocks st' -> pooled_in p (blocks st' b) = 1 ->
+      btag (blocks st' b) = Pooled (pparams (pools st' p)).
+Proof.
+  intros ops st' obs G E p Hp. destruct (run_good init ops inv_init G) as [st2 [obs2 [E2 [I _]]]].
+  rewrite E in E2. inversion E2; subst st2 obs2. split; [apply (i_cnt _ I p Hp)|].
+  intros b Hb H1. unfold pooled_in in H1.
+  destruct (balive (blocks st' b)) eqn:Ea; [|discriminate].
+  destruct (is_pooled (btag (blocks st' b))) eqn:Ep; [|discriminate].
+  destruct (Nat.eqb_spec (bpool (blocks st' b)) p) as [Eq|]; [|discriminate].
+  destruct (i_blk _ I b Hb Ea) as [_ Ht]. destruct (btag (blocks st' b)); [|discriminate].
+  destruct Ht as [-> _]. rewrite Eq. reflexivity.
+Qed.
+
+(* T3: leak freedom.  The base-allocator traffic reported by the operations is exactly accounted for by
+   [outstanding]; a pool without living owner is gone (its buffers and control block were returned when
+   the last owner died); and once every allocator object is destroyed and every block deallocated nothing
+   is outstanding: allocations = deallocations on the base allocator. *)
+Theorem last_owner_returns_all : forall ops st' obs, good true init ops = true -> run init ops = Ok (st', obs) ->
+  outstanding st' + sum_frees obs = sum_allocs obs /\
+  (forall p, p < npools st' ->
+     (forall h, h < nhandles st' -> halive (handles st' h) = true -> hpool (handles st' h) <> p) ->
+     palive (pools st' p) = false /\ pool_out (pools st' p) = 0) /\
+  ((forall h, h < nhandles st' -> halive (handles st' h) = false) ->
+   (forall b, b < nblocks st' -> balive (blocks st' b) = false) ->
+   outstanding st' = 0 /\ sum_allocs obs = sum_frees obs).
+Proof.
+  intros ops st' obs G E. destruct (run_good init ops inv_init G) as [st2 [obs2 [E2 [I [_ B]]]]].
+  rewrite E in E2. inversion E2; subst st2 obs2. change (outstanding init) with 0 in B.
+  assert (Hgone : forall p, p < npools st' ->
+     (forall h, h < nhandles st' -> halive (handles st' h) = true -> hpool (handles st' h) <> p) ->
+     palive (pools st' p) = false /\ pool_out (pools st' p) = 0).
+  { intros p Hp Hno. assert (prefs (pools st' p) = 0) as R0.
+    { rewrite (i_refs _ I p Hp). apply sumn_all_zero. intros h Hh. unfold owns.
+      destruct (halive (handles st' h)) eqn:Ea; [|reflexivity].
+      destruct (Nat.eqb_spec (hpool (handles st' h)) p) as [Eq|]; [|reflexivity].
+      exfalso. apply (Hno h Hh Ea Eq). }
+    pose proof (i_alive _ I p Hp) as A. rewrite R0 in A. simpl in A. split; [exact A|].
+    unfold pool_out. rewrite A. reflexivity. }
+  split; [lia|]. split; [exact Hgone|].
+  intros Hh Hb. assert (outstanding st' = 0) as O0.
+  { unfold outstanding. rewrite (sumn_all_zero (npools st')), (sumn_all_zero (nblocks st')); [reflexivity| |].
+    - intros b Hlt. unfold raw_out. rewrite (Hb b Hlt). reflexivity.
+    - intros p Hp. apply Hgone; [exact Hp|]. intros h Hlt Ha. rewrite (Hh h Hlt) in Ha. discriminate. }
+  split; [exact O0 | lia].
+Qed.
+
+(* ------------------------------------------------------------------ independence of pools *)
+Definition op_pools (st : state) (o : op) : list nat :=
+  match o with
+  | OpNew _ => []
+  | OpCopy h => [hpool (handles st h)]
+  | OpRebind h _ => [hpool (handles st h)]
+  | OpSocc h => []             (* reads only the base allocator of h's pool *)
+  | OpAssign hd hs => [hpool (handles st hd); hpool (handles st hs)]
+  | OpDestroy h => [hpool (handles st h)]
+  | OpAlloc h _ _ => [hpool (handles st h)]
+  | OpDealloc h _ _ _ => [hpool (handles st h)]
+  end.
+
+(* pool q and the blocks obtained through it are untouched *)
+Definition pool_untouched (q : nat) (st st' : state) : Prop :=
+  pools st' q = pools st q /\ npools st <= npools st' /\ nblocks st <= nblocks st' /\
+  (forall b, b < nblocks st -> bpool (blocks st b) = q -> blocks st' b = blocks st b).
+
+Lemma release_other s p q s' fr : release s p = Ok (s', fr) -> q <> p ->
+  pools s' q = pools s q /\ blocks s' = blocks s /\ nblocks s' = nblocks s /\ npools s' = npools s /\
+  handles s' = handles s /\ nhandles s' = nhandles s.
+Proof.
+  unfold release. intros E Hq.
+  destruct (prefs (pools s p)) as [|[|r]].
+  - inversion E; subst; unfold set_pool; proj; rewrite updn_other by exact Hq; repeat split; reflexivity.
+  - destruct (Nat.eqb (pcount (pools s p)) 0); [|discriminate].
+    inversion E; subst; unfold set_pool; proj; rewrite updn_other by exact Hq; repeat split; reflexivity.
+  - inversion E; subst; unfold set_pool; proj; rewrite updn_other by exact Hq; repeat split; reflexivity.
+Qed.
+
+Lemma step_frame st o st' ob q : step st o = Ok (st', ob) -> proto_ok st o = true -> q < npools st ->
+  ~ In q (op_pools st o) -> pool_untouched q st st'.
+Proof.
+  intros E Hpr Hq Hn. unfold pool_untouched. destruct o; simpl in E, Hn.
+  - inversion E; subst; unfold push_handle, push_pool; proj. rewrite updn_other by lia. repeat split; auto; lia.
+  - inversion E; subst; unfold push_handle, acquire, set_pool; proj. rewrite updn_other by (intuition congruence). repeat split; auto; lia.
+  - inversion E; subst; unfold push_handle, acquire, set_pool; proj. rewrite updn_other by (intuition congruence). repeat split; auto; lia.
+  - inversion E; subst; unfold push_handle, push_pool; proj. rewrite updn_other by lia. repeat split; auto; lia.
+  - destruct (release (acquire st (hpool (handles st hs))) (hpool (handles st hd))) as [[s1 fr]| | |] eqn:Er; try discriminate.
+    inversion E; subst. destruct (release_other _ _ q _ _ Er ltac:(intuition congruence)) as [Hp [Hb [Hnb _]]].
+    destruct (release_other _ _ q _ _ Er ltac:(intuition congruence)) as [_ [_ [_ [Hnp _]]]].
+    unfold set_handle; proj. rewrite Hp, Hb, Hnb, Hnp. unfold acquire, set_pool; proj. rewrite updn_other by (intuition congruence).
+    repeat split; auto; lia.
+  - destruct (release st (hpool (handles st h))) as [[s1 fr]| | |] eqn:Er; try discriminate.
+    inversion E; subst. destruct (release_other _ _ q _ _ Er ltac:(intuition congruence)) as [Hp [Hb [Hnb _]]].
+    destruct (release_other _ _ q _ _ Er ltac:(intuition congruence)) as [_ [_ [_ [Hnp _]]]].
+    unfold set_handle; proj. rewrite Hp, Hb, Hnb, Hnp. repeat split; auto; lia.
+  - assert (q <> hpool (handles st h)) as Hne by (intuition congruence).
+    destruct (n =? 1)%Z;
+      [destruct (negb (params_eqb (get_params (hvt (handles st h))) (pparams (pools st (hpool (handles st h))))) &&
+                 Nat.eqb (pcount (pools st (hpool (handles st h)))) 0);
+       [|destruct (params_eqb (get_params (hvt (handles st h))) (pparams (pools st (hpool (handles st h)))))]|];
+      inversion E; subst; unfold push_block, set_pool; proj; try rewrite updn_other by exact Hne;
+      (split; [reflexivity|]; split; [lia|]; split; [lia|];
+       intros b Hb _; rewrite updn_other by lia; reflexivity).
+  - assert (q <> hpool (handles st h)) as Hne by (intuition congruence).
+    simpl in Hpr. repeat rewrite andb_true_iff in Hpr. destruct Hpr as [[[[_ _] Hbp] _] _]. apply Nat.eqb_eq in Hbp.
+    assert (Hblk : forall k, k < nblocks st -> bpool (blocks st k) = q ->
+               updn (blocks st) b (mkBlock false (bpool (blocks st b)) (bvt (blocks st b)) (bn (blocks st b)) (btag (blocks st b))) k
+               = blocks st k).
+    { intros k Hk Hkq. unfold updn. destruct (Nat.eqb_spec k b) as [->|]; [|reflexivity]. congruence. }
+    destruct ((n =? 1)%Z && params_eqb (get_params (hvt (handles st h))) (pparams (pools st (hpool (handles st h))))).
+    + destruct (pcount (pools st (hpool (handles st h)))); [discriminate|].
+      inversion E; subst; unfold set_block, set_pool; proj. rewrite updn_other by exact Hne.
+      split; [reflexivity|]. split; [lia|]. split; [lia | exact Hblk].
+    + inversion E; subst; unfold set_block; proj.
+      split; [reflexivity|]. split; [lia|]. split; [lia | exact Hblk].
+Qed.
+
+(* a history none of whose operations goes through an allocator that shares pool q *)
+Fixpoint avoids (q : nat) (st : state) (ops : list op) : Prop :=
+  match ops with
+  | [] => True
+  | o :: r => proto_ok st o = true /\ ~ In q (op_pools st o) /\
+              match step st o with Ok (st1, _) => avoids q st1 r | _ => True end
+  end.
+
+Lemma run_frame : forall ops st st' obs q, run st ops = Ok (st', obs) -> q < npools st -> avoids q st ops ->
+  pool_untouched q st st'.
+Proof.
+  induction ops as [|o r IH]; intros st st' obs q E Hq A.
+  - simpl in E. inversion E; subst. unfold pool_untouched. repeat split; auto.
+  - simpl in E, A. destruct A as [Hp [Hn A]].
+    destruct (step st o) as [[st1 ob]| | |] eqn:Es; try discriminate.
+    destruct (run st1 r) as [[st2 obs2]| | |] eqn:Er; try discriminate. inversion E; subst st2 obs.
+    destruct (step_frame st o st1 ob q Es Hp Hq Hn) as [F1 [F2 [F3 F4]]].
+    destruct (IH st1 st' obs2 q Er ltac:(lia) A) as [G1 [G2 [G3 G4]]].
+    unfold pool_untouched. split; [congruence|]. split; [lia|]. split; [lia|].
+    intros b Hb Hbq. rewrite <- (F4 b Hb Hbq). apply G4; [lia|]. rewrite (F4 b Hb Hbq). exact Hbq.
+Qed.
+
+(* T4: select_on_container_copy_construction gives the copy a brand-new pool that nobody else owns, and
+   whatever is afterwards done through allocators of OTHER pools (in particular: using and destroying
+   the original container) leaves the copy's pool and blocks untouched, and vice versa. *)
+Theorem copies_use_independent_pools : forall st h, inv st -> handle_ok st h = true ->
+  exists st1 ob, step st (OpSocc h) = Ok (st1, ob) /\ inv st1 /\
+    let c := nhandles st in                      (* the copy's allocator *)
+    let q := hpool (handles st1 c) in
+    halive (handles st1 c) = true /\ hvt (handles st1 c) = hvt (handles st h) /\
+    q = npools st /\ (forall k, k < nhandles st -> halive (handles st k) = true -> hpool (handles st1 k) <> q) /\
+    pools st1 q = mkPool (get_params (hvt (handles st h))) 0 1 0 true /\
+    (forall p, p < npools st -> pools st1 p = pools st p) /\
+    (forall ops st2 obs, run st1 ops = Ok (st2, obs) -> avoids q st1 ops -> pool_untouched q st1 st2) /\
+    (forall ops st2 obs p, p < npools st -> run st1 ops = Ok (st2, obs) -> avoids p st1 ops -> pool_untouched p st1 st2).
+Proof.
+  intros st h I Hok. eexists _, _. split; [reflexivity|]. split; [apply fresh_pool_inv; exact I|].
+  unfold push_handle, push_pool; proj. repeat (rewrite updn_same; proj).
+  split; [reflexivity|]. split; [reflexivity|]. split; [reflexivity|]. split.
+  - intros k Hk Ha. rewrite updn_other by lia. pose proof (i_hnd _ I k Hk Ha). lia.
+  - split; [reflexivity|]. split; [intros p Hp; rewrite updn_other by lia; reflexivity|]. split.
+    + intros ops st2 obs E A. apply (run_frame ops _ st2 obs _ E); [proj; lia | exact A].
+    + intros ops st2 obs p Hp E A. apply (run_frame ops _ st2 obs _ E); [proj; lia | exact A].
+Qed.
+
+(* ------------------------------------------------------------------ moves and swaps carry the pool *)
+(* memory-side of two states is the same: pools (except reference counts) and blocks *)
+Definition same_mem (st st' : state) : Prop :=
+  npools st' = npools st /\ nblocks st' = nblocks st /\ (forall b, blocks st' b = blocks st b) /\
+  forall p, pparams (pools st' p) = pparams (pools st p) /\ pcount (pools st' p) = pcount (pools st p) /\
+            pheld (pools st' p) = pheld (pools st p) /\ palive (pools st' p) = palive (pools st p).
+
+Lemma same_mem_refl st : same_mem st st.
+Proof. unfold same_mem; repeat split; auto. Qed.
+Lemma same_mem_trans a b c : same_mem a b -> same_mem b c -> same_mem a c.
+Proof.
+  unfold same_mem. intros [A1 [A2 [A3 A4]]] [B1 [B2 [B3 B4]]]. split; [congruence|]. split; [congruence|].
+  split; [intros; rewrite B3; apply A3|]. intros p. destruct (A4 p) as [? [? [? ?]]], (B4 p) as [? [? [? ?]]].
+  repeat split; congruence.
+Qed.
+
+(* container move construction copies the allocator (no move constructor is declared): the new allocator
+   shares the source's pool, so every block of the source can be freed through it *)
+Lemma copy_effect st h : inv st -> handle_ok st h = true ->
+  exists st1 ob, step st (OpCopy h) = Ok (st1, ob) /\ inv st1 /\ same_mem st st1 /\
+    o_allocs ob = 0 /\ o_frees ob = 0 /\ nhandles st1 = S (nhandles st) /\
+    (forall k, handles st1 k = if Nat.eqb k (nhandles st) then mkHandle true (hpool (handles st h)) (hvt (handles st h))
+                               else handles st k).
+Proof.
+  intros I Hok. destruct (step_copy st h I Hok) as [st1 [ob [E [I1 _]]]]. exists st1, ob.
+  simpl in E. inversion E; subst. split; [reflexivity|]. split; [exact I1|]. split.
+  - unfold same_mem, push_handle, acquire, set_pool; proj. repeat split; auto;
+      unfold updn; destruct (Nat.eqb p (hpool (handles st h))) eqn:Ep; proj; try reflexivity;
+      apply Nat.eqb_eq in Ep; subst; reflexivity.
+  - proj. repeat split; reflexivity.
+Qed.
+
+Lemma sumn_ge2 n f i j : i <> j -> i < n -> j < n -> f i + f j <= sumn n f.
+Proof.
+  induction n; simpl; intros Hne Hi Hj; [lia|].
+  destruct (Nat.eq_dec i n) as [->|Hin]; destruct (Nat.eq_dec j n) as [->|Hjn]; try lia.
+  - pose proof (sumn_ge n f j ltac:(lia)). lia.
+  - pose proof (sumn_ge n f i ltac:(lia)). lia.
+Qed.
+
+Lemma two_owners st h k : inv st -> h <> k -> handle_ok st h = true -> handle_ok st k = true ->
+  hpool (handles st h) = hpool (handles st k) -> 2 <= prefs (pools st (hpool (handles st h))).
+Proof.
+  intros I Hne Hh Hk Hp. apply handle_ok_spec in Hh as [Hh Ha]. apply handle_ok_spec in Hk as [Hk Hka].
+  pose proof (i_hnd _ I h Hh Ha) as Hlt. rewrite (i_refs _ I _ Hlt).
+  pose proof (sumn_ge2 (nhandles st) (fun x => owns (hpool (handles st h)) (handles st x)) h k Hne Hh Hk) as G.
+  cbv beta in G. unfold owns at 1 2 in G. rewrite Ha, Hka, <- Hp, Nat.eqb_refl in G. simpl in G. exact G.
+Qed.
+
+(* operator= when the destination is not the last owner of its old pool (or both already share a pool):
+   nothing happens on the memory side, the destination now shares the source's pool *)
+Lemma assign_effect st hd hs : inv st -> handle_ok st hd = true -> handle_ok st hs = true ->
+  hvt (handles st hd) = hvt (handles st hs) ->
+  (2 <= prefs (pools st (hpool (handles st hd))) \/ hpool (handles st hd) = hpool (handles st hs)) ->
+  exists st1 ob, step st (OpAssign hd hs) = Ok (st1, ob) /\ inv st1 /\ same_mem st st1 /\
+    o_allocs ob = 0 /\ o_frees ob = 0 /\ nhandles st1 = nhandles st /\
+    (forall k, handles st1 k = if Nat.eqb k hd then mkHandle true (hpool (handles st hs)) (hvt (handles st hd))
+                               else handles st k).
+Proof.
+  intros I Hd Hs Hvt Hnl.
+  assert (proto_ok st (OpAssign hd hs) = true) as Hp.
+  { simpl. rewrite Hd, Hs, Hvt. unfold vt_eqb. rewrite !Z.eqb_refl. simpl.
+    destruct Hnl as [H2|He]; [|rewrite He, Nat.eqb_refl; reflexivity].
+    destruct (Nat.eqb_spec (prefs (pools st (hpool (handles st hd)))) 1); [lia|]. simpl. rewrite orb_true_r. reflexivity. }
+  destruct (step_assign st hd hs I Hp) as [st1 [ob [E [I1 _]]]]. exists st1, ob. split; [exact E|]. split; [exact I1|].
+  apply handle_ok_spec in Hd as [Hhd Had]. apply handle_ok_spec in Hs as [Hhs Has].
+  destruct (handle_pool_alive st hd I Hhd Had) as [Hltd [Hrd Hald]].
+  destruct (handle_pool_alive st hs I Hhs Has) as [Hlts [Hrs Hals]].
+  set (pd := hpool (handles st hd)) in *. set (ps := hpool (handles st hs)) in *.
+  set (sa := acquire st ps).
+  assert (Hsa : forall q, pools sa q = if Nat.eqb q ps
+            then mkPool (pparams (pools st ps)) (pcount (pools st ps)) (S (prefs (pools st ps))) (pheld (pools st ps)) (palive (pools st ps))
+            else pools st q) by reflexivity.
+  assert (palive (pools sa pd) = true) as Ha1.
+  { rewrite Hsa. destruct (Nat.eqb_spec pd ps) as [E0|]; proj; [rewrite <- E0; exact Hald | exact Hald]. }
+  assert (2 <= prefs (pools sa pd)) as Ha2.
+  { rewrite Hsa. destruct (Nat.eqb_spec pd ps) as [E0|]; proj; [lia|]. destruct Hnl; [lia|contradiction]. }
+  destruct (release_spec sa pd Ha1 ltac:(lia) ltac:(lia)) as [P' [fr [Er [Hpp [Hpc [Hpr [Hpa [Hout Hfr]]]]]]]].
+  assert (fr = 0) as Hfr0. { destruct (Nat.eq_dec fr 0) as [|Hnz]; [assumption|]. destruct (Hfr Hnz). lia. }
+  unfold step in E. fold pd ps sa in E. rewrite Er in E. inversion E; subst st1 ob. clear E.
+  assert (Hheld : pheld P' = pheld (pools sa pd)).
+  { unfold pool_out in Hout. rewrite Ha1, Hpa in Hout.
+    destruct (Nat.eqb_spec (Nat.pred (prefs (pools sa pd))) 0); [lia|]. cbn [negb] in Hout. lia. }
+  assert (Hal' : palive P' = true).
+  { rewrite Hpa. destruct (Nat.eqb_spec (Nat.pred (prefs (pools sa pd))) 0); [lia|reflexivity]. }
+  split.
+  - unfold same_mem, set_handle, set_pool; proj. split; [reflexivity|]. split; [reflexivity|]. split; [reflexivity|].
+    intros p. unfold updn. destruct (Nat.eqb_spec p pd) as [->|Hnp].
+    + rewrite Hpp, Hpc, Hheld, Hal', Hsa. destruct (Nat.eqb_spec pd ps) as [E0|]; proj.
+      * rewrite <- E0. rewrite Hald. repeat split; reflexivity.
+      * rewrite Hald. repeat split; reflexivity.
+    + rewrite Hsa. destruct (Nat.eqb_spec p ps) as [->|]; proj; repeat split; reflexivity.
+  - unfold set_handle, set_pool; proj. repeat split; auto.
+Qed.
+
+(* destructor of an allocator that is not the last owner: nothing happens on the memory side *)
+Lemma destroy_effect st h : inv st -> handle_ok st h = true -> 2 <= prefs (pools st (hpool (handles st h))) ->
+  exists st1 ob, step st (OpDestroy h) = Ok (st1, ob) /\ inv st1 /\ same_mem st st1 /\
+    o_allocs ob = 0 /\ o_frees ob = 0 /\ nhandles st1 = nhandles st /\
+    (forall k, handles st1 k = if Nat.eqb k h then mkHandle false (hpool (handles st h)) (hvt (handles st h))
+                               else handles st k).
+Proof.
+  intros I Hok H2.
+  assert (proto_ok st (OpDestroy h) = true) as Hp.
+  { simpl. rewrite Hok. destruct (Nat.eqb_spec (prefs (pools st (hpool (handles st h)))) 1); [lia|reflexivity]. }
+  destruct (step_destroy st h I Hp) as [st1 [ob [E [I1 _]]]]. exists st1, ob. split; [exact E|]. split; [exact I1|].
+  apply handle_ok_spec in Hok as [Hh Ha]. destruct (handle_pool_alive st h I Hh Ha) as [Hlt [Hr Hal]].
+  set (p := hpool (handles st h)) in *.
+  destruct (release_spec st p Hal ltac:(lia) ltac:(lia)) as [P' [fr [Er [Hpp [Hpc [Hpr [Hpa [Hout Hfr]]]]]]]].
+  assert (fr = 0) as Hfr0. { destruct (Nat.eq_dec fr 0) as [|Hnz]; [assumption|]. destruct (Hfr Hnz). lia. }
+  unfold step in E. fold p in E. rewrite Er in E. inversion E; subst st1 ob. clear E.
+  assert (Hal' : palive P' = true).
+  { rewrite Hpa. destruct (Nat.eqb_spec (Nat.pred (prefs (pools st p))) 0); [lia|reflexivity]. }
+  assert (Hheld : pheld P' = pheld (pools st p)).
+  { unfold pool_out in Hout. rewrite Hal, Hal' in Hout. lia. }
+  split.
+  - unfold same_mem, set_handle, set_pool; proj. split; [reflexivity|]. split; [reflexivity|]. split; [reflexivity|].
+    intros q. unfold updn. destruct (Nat.eqb_spec q p) as [->|]; [|repeat split; reflexivity].
+    rewrite Hpp, Hpc, Hheld, Hal', Hal. repeat split; reflexivity.
+  - unfold set_handle, set_pool; proj. repeat split; auto.
+Qed.
+
+(* T5c: std::swap of two allocators of the same type (propagate_on_container_swap): the two allocators
+   exchange their pools, no memory moves, no pool dies, every block stays where it is *)
+Lemma swap_carries st h1 h2 : inv st -> h1 <> h2 -> handle_ok st h1 = true -> handle_ok st h2 = true ->
+  hvt (handles st h1) = hvt (handles st h2) ->
+  exists st' obs, run st (swap_ops st h1 h2) = Ok (st', obs) /\ inv st' /\ same_mem st st' /\
+    sum_allocs obs = 0 /\ sum_frees obs = 0 /\ nhandles st' = S (nhandles st) /\
+    handles st' h1 = mkHandle true (hpool (handles st h2)) (hvt (handles st h1)) /\
+    handles st' h2 = mkHandle true (hpool (handles st h1)) (hvt (handles st h2)) /\
+    (forall k, k < nhandles st -> k <> h1 -> k <> h2 -> handles st' k = handles st k).
+Proof.
+  intros I Hne Hk1 Hk2 Hvt.
+  destruct (handle_ok_spec _ _ Hk1) as [Hlt1 Hal1]. destruct (handle_ok_spec _ _ Hk2) as [Hlt2 Hal2].
+  set (t := nhandles st).
+  (* tmp(a) *)
+  destruct (copy_effect st h1 I Hk1) as [s1 [o1 [E1 [I1 [M1 [A1 [F1 [N1 T1]]]]]]]]. fold t in N1, T1.
+  assert (G1 : forall k, k <> t -> handles s1 k = handles st k).
+  { intros k Hk. rewrite T1. destruct (Nat.eqb_spec k t); [contradiction|reflexivity]. }
+  assert (Gt1 : handles s1 t = mkHandle true (hpool (handles st h1)) (hvt (handles st h1))).
+  { rewrite T1, Nat.eqb_refl. reflexivity. }
+  assert (K1a : handle_ok s1 h1 = true). { unfold handle_ok. rewrite N1, G1 by lia. rewrite Hal1. apply andb_true_iff; split; [apply Nat.ltb_lt; lia|reflexivity]. }
+  assert (K1b : handle_ok s1 h2 = true). { unfold handle_ok. rewrite N1, G1 by lia. rewrite Hal2. apply andb_true_iff; split; [apply Nat.ltb_lt; lia|reflexivity]. }
+  assert (K1t : handle_ok s1 t = true). { unfold handle_ok. rewrite N1, Gt1. apply andb_true_iff; split; [apply Nat.ltb_lt; lia|reflexivity]. }
+  (* a = b *)
+  destruct (assign_effect s1 h1 h2 I1 K1a K1b) as [s2 [o2 [E2 [I2 [M2 [A2 [F2 [N2 T2]]]]]]]].
+  { rewrite !G1 by lia. exact Hvt. }
+  { left. apply (two_owners s1 h1 t I1 ltac:(lia) K1a K1t). rewrite G1 by lia. rewrite Gt1. reflexivity. }
+  rewrite (G1 h1) in T2 by lia. rewrite (G1 h2) in T2 by lia.
+  assert (G2 : forall k, k <> h1 -> handles s2 k = handles s1 k).
+  { intros k Hk. rewrite T2. destruct (Nat.eqb_spec k h1); [contradiction|reflexivity]. }
+  assert (Gh2 : handles s2 h1 = mkHandle true (hpool (handles st h2)) (hvt (handles st h1))).
+  { rewrite T2, Nat.eqb_refl. reflexivity. }
+  assert (K2a : handle_ok s2 h1 = true). { unfold handle_ok. rewrite N2, N1, Gh2. apply andb_true_iff; split; [apply Nat.ltb_lt; lia|reflexivity]. }
+  assert (K2b : handle_ok s2 h2 = true). { unfold handle_ok. rewrite N2, N1, G2, G1 by lia. rewrite Hal2. apply andb_true_iff; split; [apply Nat.ltb_lt; lia|reflexivity]. }
+  assert (K2t : handle_ok s2 t = true). { unfold handle_ok. rewrite N2, N1, G2, Gt1 by lia. apply andb_true_iff; split; [apply Nat.ltb_lt; lia|reflexivity]. }
+  (* b = tmp *)
+  destruct (assign_effect s2 h2 t I2 K2b K2t) as [s3 [o3 [E3 [I3 [M3 [A3 [F3 [N3 T3]]]]]]]].
+  { rewrite (G2 h2), (G2 t), (G1 h2), Gt1 by lia. proj. symmetry. exact Hvt. }
+  { left. apply (two_owners s2 h2 h1 I2 ltac:(lia) K2b K2a). rewrite (G2 h2), (G1 h2), Gh2 by lia. reflexivity. }
+  rewrite (G2 h2), (G2 t), (G1 h2), Gt1 in T3 by lia. proj.
+  assert (G3 : forall k, k <> h2 -> handles s3 k = handles s2 k).
+  { intros k Hk. rewrite T3. destruct (Nat.eqb_spec k h2); [contradiction|reflexivity]. }
+  assert (Gh3 : handles s3 h2 = mkHandle true (hpool (handles st h1)) (hvt (handles st h2))).
+  { rewrite T3, Nat.eqb_refl. reflexivity. }
+  assert (K3b : handle_ok s3 h2 = true). { unfold handle_ok. rewrite N3, N2, N1, Gh3. apply andb_true_iff; split; [apply Nat.ltb_lt; lia|reflexivity]. }
+  assert (K3t : handle_ok s3 t = true). { unfold handle_ok. rewrite N3, N2, N1, G3, G2, Gt1 by lia. apply andb_true_iff; split; [apply Nat.ltb_lt; lia|reflexivity]. }
+  (* ~tmp *)
+  destruct (destroy_effect s3 t I3 K3t) as [s4 [o4 [E4 [I4 [M4 [A4 [F4 [N4 T4]]]]]]]].
+  { apply (two_owners s3 t h2 I3 ltac:(lia) K3t K3b). rewrite G3, G2, Gt1, Gh3 by lia. reflexivity. }
+  exists s4, [o1; o2; o3; o4]. unfold swap_ops. fold t. cbn [run]. rewrite E1, E2, E3, E4.
+  split; [reflexivity|]. split; [exact I4|].
+  split; [apply (same_mem_trans _ s1); [exact M1|]; apply (same_mem_trans _ s2); [exact M2|];
+          apply (same_mem_trans _ s3); [exact M3 | exact M4]|].
+  split; [cbn [sum_allocs]; lia|]. split; [cbn [sum_frees]; lia|]. split; [lia|].
+  assert (G4 : forall k, k <> t -> handles s4 k = handles s3 k).
+  { intros k Hk. rewrite T4. destruct (Nat.eqb_spec k t); [contradiction|reflexivity]. }
+  split; [rewrite G4, G3 by lia; exact Gh2|]. split; [rewrite G4 by lia; exact Gh3|].
+  intros k Hk Hk1' Hk2'. rewrite G4, G3, G2, G1 by lia. reflexivity.
+Qed.
+
+Lemma dealloc_transfer st st1 h k b n s : same_mem st st1 -> handle_ok st1 k = true ->
+  hpool (handles st1 k) = hpool (handles st h) -> hvt (handles st1 k) = hvt (handles st h) ->
+  proto_ok st (OpDealloc h b n s) = true -> proto_ok st1 (OpDealloc k b n s) = true.
+Proof.
+  intros [M1 [M2 [M3 _]]] Hk Hp Hv P. simpl in *. rewrite Hk, M2, M3, Hp, Hv.
+  repeat rewrite andb_true_iff in P. destruct P as [[[[[_ P1] P2] P3] P4] P5].
+  rewrite P1, P2, P3, P4, P5. reflexivity.
+Qed.
+
+(* T5: move construction (allocator copied), move assignment (propagate_on_container_move_assignment:
+   allocator assigned; shown here for a destination that shares its old pool or is not its last owner - the
+   last-owner case additionally destroys the old pool, see step_assign / last_owner_returns_all) and swap
+   make the target allocator share the pool of the source: exactly the blocks the source could deallocate
+   can now be deallocated through the target, with no base-allocator traffic and no change to any pool's
+   parameters, allocate count or buffers *)
+Theorem move_and_swap_carry_pool : forall st, inv st ->
+  (forall h, handle_ok st h = true ->
+     exists st1 ob, step st (OpCopy h) = Ok (st1, ob) /\ inv st1 /\ same_mem st st1 /\ o_allocs ob = 0 /\ o_frees ob = 0 /\
+       handles st1 (nhandles st) = mkHandle true (hpool (handles st h)) (hvt (handles st h)) /\
+       forall b n s, proto_ok st (OpDealloc h b n s) = true -> proto_ok st1 (OpDealloc (nhandles st) b n s) = true) /\
+  (forall hd hs, handle_ok st hd = true -> handle_ok st hs = true -> hvt (handles st hd) = hvt (handles st hs) ->
+     (2 <= prefs (pools st (hpool (handles st hd))) \/ hpool (handles st hd) = hpool (handles st hs)) ->
+     exists st1 ob, step st (OpAssign hd hs) = Ok (st1, ob) /\ inv st1 /\ same_mem st st1 /\ o_allocs ob = 0 /\ o_frees ob = 0 /\
+       handles st1 hd = mkHandle true (hpool (handles st hs)) (hvt (handles st hd)) /\
+       forall b n s, proto_ok st (OpDealloc hs b n s) = true -> proto_ok st1 (OpDealloc hd b n s) = true) /\
+  (forall h1 h2, h1 <> h2 -> handle_ok st h1 = true -> handle_ok st h2 = true -> hvt (handles st h1) = hvt (handles st h2) ->
+     exists st' obs, run st (swap_ops st h1 h2) = Ok (st', obs) /\ inv st' /\ same_mem st st' /\
+       sum_allocs obs = 0 /\ sum_frees obs = 0 /\
+       handles st' h1 = mkHandle true (hpool (handles st h2)) (hvt (handles st h1)) /\
+       handles st' h2 = mkHandle true (hpool (handles st h1)) (hvt (handles st h2)) /\
+       (forall k, k < nhandles st -> k <> h1 -> k <> h2 -> handles st' k = handles st k) /\
+       (forall b n s, proto_ok st (OpDealloc h2 b n s) = true -> proto_ok st' (OpDealloc h1 b n s) = true) /\
+       (forall b n s, proto_ok st (OpDealloc h1 b n s) = true -> proto_ok st' (OpDealloc h2 b n s) = true)).
+Proof.
+  intros st I. split; [|split].
+  - intros h Hok. destruct (copy_effect st h I Hok) as [s1 [o1 [E1 [I1 [M1 [A1 [F1 [N1 T1]]]]]]]].
+    exists s1, o1. assert (Gt : handles s1 (nhandles st) = mkHandle true (hpool (handles st h)) (hvt (handles st h))).
+    { rewrite T1, Nat.eqb_refl. reflexivity. }
+    repeat (split; [assumption|]). intros b n s P. apply (dealloc_transfer st s1 h _ b n s M1); auto; try (rewrite Gt; reflexivity).
+    unfold handle_ok. rewrite N1, Gt. apply andb_true_iff; split; [apply Nat.ltb_lt; lia|reflexivity].
+  - intros hd hs Hd Hs Hvt Hnl. destruct (assign_effect st hd hs I Hd Hs Hvt Hnl) as [s1 [o1 [E1 [I1 [M1 [A1 [F1 [N1 T1]]]]]]]].
+    exists s1, o1. assert (Gt : handles s1 hd = mkHandle true (hpool (handles st hs)) (hvt (handles st hd))).
+    { rewrite T1, Nat.eqb_refl. reflexivity. }
+    repeat (split; [assumption|]). intros b n s P. apply (dealloc_transfer st s1 hs _ b n s M1); auto; try (rewrite Gt; proj; auto).
+    unfold handle_ok. rewrite N1, Gt. destruct (handle_ok_spec _ _ Hd) as [Hlt _].
+    apply andb_true_iff; split; [apply Nat.ltb_lt; lia|reflexivity].
+  - intros h1 h2 Hne Hk1 Hk2 Hvt.
+    destruct (swap_carries st h1 h2 I Hne Hk1 Hk2 Hvt) as [s' [obs [E [I' [M [A [F [N [G1 [G2 G3]]]]]]]]]].
+    exists s', obs. repeat (split; [assumption|]).
+    destruct (handle_ok_spec _ _ Hk1) as [Hlt1 _]. destruct (handle_ok_spec _ _ Hk2) as [Hlt2 _].
+    split; intros b n s P.
+    + apply (dealloc_transfer st s' h2 h1 b n s M); auto; try (rewrite G1; proj; auto).
+      unfold handle_ok. rewrite N, G1. apply andb_true_iff; split; [apply Nat.ltb_lt; lia|reflexivity].
+    + apply (dealloc_transfer st s' h1 h2 b n s M); auto; try (rewrite G2; proj; auto).
+      unfold handle_ok. rewrite N, G2. apply andb_true_iff; split; [apply Nat.ltb_lt; lia|reflexivity].
+Qed.
+
+(* ------------------------------------------------------------------ outside the claim: without H *)
+Definition t24 : vtype := mkVt 24 8.
+Definition t40 : vtype := mkVt 40 8.
+Definition refute_ops : list op :=
+  [ OpNew t24;            (* h0 : allocator<T24>, pool 0 *)
+    OpRebind 0 t40;       (* h1 : rebound allocator<T40>, same pool *)
+    OpAlloc 0 1 1;        (* b0 : pooled (24 -> block 24, align 8) *)
+    OpAlloc 1 1 0;        (* b1 : single T40 while the pool is busy with other parameters -> RAW 40 bytes *)
+    OpDealloc 0 0 1 0;    (* b0 back to the pool: idle *)
+    OpAlloc 1 1 1;        (* b2 : idle pool re-parameterised for T40 -> pooled *)
+    OpDealloc 1 1 1 0;    (* b1 (raw!) : test says "pool" -> MISROUTED raw block into the pool *)
+    OpAlloc 0 1 1;        (* b3 : count is 0 again although b2 is live -> re-parameterised for T24 *)
+    OpDealloc 1 2 1 0 ].  (* b2 (pooled!) : parameters differ now -> MISROUTED to the base allocator *)
+
+Definition routing (ops : list op) : list (option tag * option tag * bool) :=
+  match run init ops with
+  | Ok (_, obs) => map (fun o => (o_origin o, o_dest o, routed_ok o)) obs
+  | _ => []
+  end.
+
+(* protocol respected, H violated: deallocation 6 puts a raw 40-byte block into the pool, deallocation 8
+   hands a pooled block to the base allocator *)
+Theorem dealloc_origin_refuted_general :
+  good false init refute_ops = true /\ good true init refute_ops = false /\
+  nth_error (routing refute_ops) 6 = Some (Some (RawMem 40), Some (Pooled (40, 8)%Z), false) /\
+  nth_error (routing refute_ops) 8 = Some (Some (Pooled (40, 8)%Z), Some (RawMem 40), false).
+Proof. vm_compute. repeat split; reflexivity. Qed.
+
+(* ------------------------------------------------------------------ non-vacuity *)
+(* a list-like and a hash-like container life: nodes singly, bucket arrays with n > 1, a copy with its
+   own pool, a swap, everything destroyed at the end *)
+Definition node32 : vtype := mkVt 32 8.
+Definition ptr8 : vtype := mkVt 8 8.
+Definition demo_ops : list op :=
+  [ OpNew (mkVt 16 8);        (* h0 allocator<value_type> given to the container *)
+    OpRebind 0 node32;        (* h1 node allocator of container A *)
+    OpDestroy 0;
+    OpAlloc 1 1 2;            (* b0 node *)
+    OpAlloc 1 1 0;            (* b1 node *)
+    OpRebind 1 ptr8;          (* h2 bucket allocator (temporary) *)
+    OpAlloc 2 13 0;           (* b2 bucket array: raw *)
+    OpDestroy 2;
+    OpSocc 1;                 (* h3 node allocator of the copy B: new pool 1 *)
+    OpAlloc 3 1 2;            (* b3 *)
+    OpAlloc 3 1 0 ]           (* b4 *)
+  ++ swap_ops (mkState (fun _ => dead_pool) 2 (fun _ => dead_handle) 4 (fun _ => dead_block) 5) 1 3 ++
+  [ OpDealloc 1 3 1 0;        (* A (now on pool 1) frees B's former nodes *)
+    OpDealloc 1 4 1 1;
+    OpDestroy 1;              (* last owner of pool 1: pool destroyed *)
+    OpDealloc 3 0 1 0;
+    OpDealloc 3 1 1 0;
+    OpRebind 3 ptr8;          (* h5 *)
+    OpDealloc 5 2 13 0;       (* bucket array back to the base allocator *)
+    OpDestroy 5;
+    OpDestroy 3 ].
+
+Example demo_good : good true init demo_ops = true.
+Proof. vm_compute. reflexivity. Qed.
+
+Example demo_result :
+  match run init demo_ops with
+  | Ok (st, obs) => (outstanding st, sum_allocs obs, sum_frees obs, forallb routed_ok obs,
+                     length (filter (fun o => match o_dest o with Some (Pooled _) => true | _ => false end) obs),
+                     length (filter (fun o => match o_dest o with Some (RawMem _) => true | _ => false end) obs))
+  | _ => (1, 0, 0, false, 0, 0)
+  end = (0, 8, 8, true, 8, 2).
+Proof. vm_compute. reflexivity. Qed.
+
+(* H is not vacuous in the other direction either: an idle pool IS re-parameterised for another node type *)
+Example reparam_under_H :
+  let ops := [OpNew t24; OpRebind 0 t40; OpAlloc 0 1 1; OpDealloc 0 0 1 0; OpAlloc 1 1 1; OpDealloc 1 1 1 1; OpDestroy 0; OpDestroy 1] in
+  good true init ops = true /\
+  match run init ops with Ok (st, obs) => (outstanding st, map o_reparam obs) | _ => (1, []) end
+    = (0, [false; false; false; false; true; false; false; false]).
+Proof. vm_compute. split; reflexivity. Qed.
